@@ -19,6 +19,7 @@ import (
 	"encoding/binary"
 	"encoding/hex"
 	"encoding/json"
+	"errors"
 	"flag"
 	"fmt"
 	"math/rand"
@@ -48,7 +49,8 @@ const (
 )
 
 type Ev struct {
-	K  string `json:"k"` // set | tun | ans | allow | uapi | refinit | refdata
+	K  string `json:"k"`            // set | tun | ans | allow | uapi | refinit | refdata | tunerr | tunierr | retransmit
+	Kf int    `json:"kf,omitempty"` // tunerr: datagrams that go out before Bind.Send returns its error
 	V  uint64 `json:"v,omitempty"`
 	N  int    `json:"n,omitempty"`
 	On bool   `json:"on,omitempty"`
@@ -61,13 +63,15 @@ type Tx struct {
 }
 
 type Obs struct {
-	Tx     []Tx   `json:"tx"`
-	Init   int    `json:"init"`
-	First  uint64 `json:"first,omitempty"` // tun: id of the first packet of the batch
-	Idx    uint32 `json:"idx,omitempty"`   // ans: index chosen by the remote party
-	PkaOn  bool   `json:"pka_on,omitempty"`
-	HasKey bool   `json:"has_key"`
-	Nonce  uint64 `json:"nonce"` // sendNonce of the current keypair after the step
+	Tx     []Tx     `json:"tx"`
+	Init   int      `json:"init"`
+	First  uint64   `json:"first,omitempty"` // tun: id of the first packet of the batch
+	Idx    uint32   `json:"idx,omitempty"`   // ans: index chosen by the remote party
+	PkaOn  bool     `json:"pka_on,omitempty"`
+	HasKey bool     `json:"has_key"`
+	Nonce  uint64   `json:"nonce"`           // sendNonce of the current keypair after the step
+	Lost   []uint64 `json:"lost,omitempty"`  // tunerr: ids of the packets the bind refused
+	Fired  bool     `json:"fired,omitempty"` // the injected bind error was actually returned
 }
 
 type KeyTrace struct {
@@ -90,7 +94,8 @@ type StressCfg struct {
 	PaceUs    int   `json:"pace_us"`
 	AnsDelay  int   `json:"answer_delay_ms"` // the remote party answers initiations after 0..2*AnsDelay ms
 	KA        int   `json:"keepalive_flushers"`
-	DownUp    bool  `json:"down_up"` // prelude: Down; TUN packets for configured peers while down; Up
+	DownUp    bool  `json:"down_up"`         // prelude: Down; TUN packets for configured peers while down; Up
+	SendErr   int   `json:"send_err_one_in"` // one in N transport Sends fails after a random prefix went out (0 = never)
 }
 
 type Case struct {
@@ -102,6 +107,7 @@ type Case struct {
 	Keys  []KeyTrace     `json:"keys,omitempty"`
 	Info  map[string]any `json:"info,omitempty"`
 	Slow  bool           `json:"slow,omitempty"`
+	Long  bool           `json:"long,omitempty"`  // real-time scenario (waits for the retransmit timer, ~5.5 s)
 	Stuck bool           `json:"stuck,omitempty"` // the device twice did not come to rest on this scenario
 	BB    int            `json:"bb,omitempty"`
 }
@@ -142,7 +148,9 @@ func parseSent(w *cosim.World, p *cosim.RefPeer, sent []sim.Sent, lastInit *[]by
 	return txs, inits
 }
 
-func runSeq(evs []Ev, bindBatch int) ([]Ev, []Obs, bool) {
+var errInjected = errors.New("injected: network is unreachable")
+
+func runSeq(evs []Ev, bindBatch int, long bool) ([]Ev, []Obs, bool) {
 	p := cosim.NewPeer("A", "192.0.2.7:5555", "10.0.0.0/24")
 	w, err := cosim.NewWorld(cosim.Config{Up: true, BindBatch: bindBatch, TunBatch: 128}, true, p)
 	if err != nil {
@@ -159,6 +167,31 @@ func runSeq(evs []Ev, bindBatch int) ([]Ev, []Obs, bool) {
 	w.Timeout = 3 * time.Second
 	pk := cosim.NoisePK(p.Pub)
 	var lastInit []byte
+	// fault injection at the bind: one transport Send / one initiation Send fails when armed
+	armT, armI := -1, false
+	var firedT, firedI bool
+	var refused [][]byte
+	w.Bind.SendErrFn = func(bufs [][]byte, to netip.AddrPort) (int, error) {
+		if len(bufs) == 0 {
+			return 0, nil
+		}
+		if armT >= 0 && bufs[0][0] == ref.TypeTransport {
+			k := armT
+			if k > len(bufs) {
+				k = len(bufs)
+			}
+			armT, firedT = -1, true
+			for _, b := range bufs[k:] {
+				refused = append(refused, append([]byte{}, b...))
+			}
+			return k, errInjected
+		}
+		if armI && len(bufs[0]) == ref.InitiationSize && bufs[0][0] == ref.TypeInitiation {
+			armI, firedI = false, true
+			return 0, errInjected
+		}
+		return 0, nil
+	}
 	nextID := uint64(1)
 	pka := 0
 	var lastRefSess *ref.Session
@@ -170,7 +203,61 @@ func runSeq(evs []Ev, bindBatch int) ([]Ev, []Obs, bool) {
 	for _, e := range evs {
 		var out cosim.Out
 		o := Obs{}
+		firedT, firedI, refused = false, false, nil
 		switch e.K {
+		case "tunerr", "tunierr":
+			if e.N < 1 {
+				continue
+			}
+			if e.K == "tunerr" {
+				if w.Dev.VerifPeer(pk).StagedLen != 0 {
+					e = Ev{K: "tun", N: e.N} // the model applies the error only to a flush that starts with an empty staged queue
+				} else {
+					armT = e.Kf
+				}
+			} else {
+				armI = true
+			}
+			pkts := make([][]byte, e.N)
+			o.First = nextID
+			for i := range pkts {
+				pkts[i] = stress.Packet([4]byte{10, 9, 9, 9}, [4]byte{10, 0, 0, 2}, 36+int(nextID*13%90), 1, nextID)
+				nextID++
+			}
+			out = w.TunIn(pkts...)
+			armT, armI = -1, false
+			if firedI {
+				lastInit = nil // the device's handshake state has moved on; the refused initiation never reached anybody
+			}
+			o.Fired = firedT || firedI
+			o.Lost = []uint64{}
+			for _, b := range refused {
+				id := badPl
+				for _, sess := range p.Sessions {
+					if _, _, pt, err := sess.OpenTransport(b); err == nil {
+						if _, seq, _, ok := stress.Parse(pt); ok {
+							id = seq
+						}
+					}
+				}
+				o.Lost = append(o.Lost, id)
+			}
+		case "retransmit":
+			if !long {
+				continue
+			}
+			// wait (real time) for the retransmit-handshake timer: RekeyTimeout + up to 334 ms jitter
+			dl := time.Now().Add(8 * time.Second)
+			var acc []sim.Sent
+			for time.Now().Before(dl) {
+				acc = append(acc, w.Bind.TakeSent()...)
+				if cosim.FindInitiation(acc) != nil {
+					break
+				}
+				time.Sleep(20 * time.Millisecond)
+			}
+			out = w.Take()
+			out.Sent = append(acc, out.Sent...)
 		case "tun":
 			if e.N < 1 {
 				continue
@@ -259,7 +346,7 @@ func runSeq(evs []Ev, bindBatch int) ([]Ev, []Obs, bool) {
 			break // nothing after a step that did not settle can be judged
 		}
 	}
-	if time.Since(t0) > 2*time.Second {
+	if !long && time.Since(t0) > 2*time.Second {
 		// the model's "5 s spacing" flag is only meaningful while the scenario is much shorter than RekeyTimeout
 		slow = true
 	}
@@ -312,6 +399,11 @@ func genSeq(r *rand.Rand) ([]Ev, string) {
 			}
 		case x < 84:
 			evs = append(evs, Ev{K: "refdata"})
+		case x < 88:
+			n := 1 + r.Intn(40)
+			evs = append(evs, Ev{K: "tunerr", N: n, Kf: r.Intn(n + 1)}, Ev{K: "tun", N: 1 + r.Intn(8)})
+		case x < 90:
+			evs = append(evs, Ev{K: "tunierr", N: 1 + r.Intn(4)})
 		case x < 92:
 			evs = append(evs, Ev{K: "allow"})
 		default:
@@ -346,8 +438,24 @@ func directed() [][]Ev {
 			pre = []Ev{{K: "tun", N: 1}, {K: "ans"}, {K: "refinit"}, {K: "refdata"}, {K: "allow"}}
 		}
 		out = append(out, append(pre, Ev{K: "set", V: v}, Ev{K: "tun", N: n}, Ev{K: "tun", N: 1 + i%3}, Ev{K: "ans"}, Ev{K: "tun", N: 2}))
+		if i%8 == 3 {
+			// bind errors at this boundary: clean failure / partial send of the batch, then more batches;
+			// then an exhausted (or fresh) key whose initiation the bind refuses
+			k := (i / 8) % (n + 1)
+			out = append(out, []Ev{{K: "tun", N: 1}, {K: "ans"}, {K: "allow"}, {K: "set", V: v}, {K: "tunerr", N: n, Kf: k}, {K: "tun", N: 3}, {K: "tun", N: 2},
+				{K: "allow"}, {K: "tunierr", N: 2}, {K: "allow"}, {K: "tun", N: 1}, {K: "ans"}, {K: "tunerr", N: 4, Kf: 0}, {K: "tun", N: 4}})
+		}
 	}
 	return out
+}
+
+// real-time scenarios (run concurrently with everything else, ~5.5 s each): the bind refuses the initiation of an
+// exhausted key / of a key past 2^60; the retransmit timer must repeat it and the held packets go out under the new key
+func longScenarios() [][]Ev {
+	return [][]Ev{
+		{{K: "tun", N: 1}, {K: "ans"}, {K: "allow"}, {K: "set", V: Reject - 1}, {K: "tunierr", N: 2}, {K: "retransmit"}, {K: "ans"}, {K: "tun", N: 1}},
+		{{K: "refinit"}, {K: "refdata"}, {K: "allow"}, {K: "set", V: Rekey}, {K: "tunierr", N: 3}, {K: "retransmit"}, {K: "ans"}, {K: "tun", N: 2}},
+	}
 }
 
 // ---------------------------------------------------------------- stress
@@ -413,6 +521,16 @@ func runStress(c StressCfg) Case {
 	pcfg := stress.Config{Procs: c.Procs, Hogs: c.Hogs, OneIn: c.OneIn, MaxSleep: time.Duration(c.MaxSleep) * time.Microsecond}
 	per := stress.Start(w, rng, pcfg)
 	w.Bind.SendGate = func(bufs [][]byte, to netip.AddrPort) { stress.Nap(rng, pcfg) }
+	var sendErrs atomic.Int64
+	if c.SendErr > 0 {
+		w.Bind.SendErrFn = func(bufs [][]byte, to netip.AddrPort) (int, error) {
+			if len(bufs) > 0 && bufs[0][0] == ref.TypeTransport && rng.Intn(c.SendErr) == 0 {
+				sendErrs.Add(1)
+				return rng.Intn(len(bufs) + 1), errInjected
+			}
+			return 0, nil
+		}
+	}
 	info := map[string]any{}
 
 	var nextIdx atomic.Uint32
@@ -767,6 +885,7 @@ func runStress(c StressCfg) Case {
 	}
 	info["keys_reached_limit"] = reached
 	info["out_of_order_neighbours"] = interleaved
+	info["send_errors_injected"] = sendErrs.Load()
 	info["transports"] = nTransport
 	info["keys"] = len(keyOrder)
 	info["initiations_answered"] = nInit
@@ -788,8 +907,8 @@ func runStress(c StressCfg) Case {
 // device does not come to rest (or crashes) is run a second time; if that
 // happens again it is reported as stuck (a livelock in SendStagedPackets, say,
 // is a violation of "stops using the key and negotiates a new session").
-func isolatedSeq(evs []Ev, gen string, bb int) Case {
-	js, _ := json.Marshal(map[string]any{"evs": evs, "bb": bb})
+func isolatedSeq(evs []Ev, gen string, bb int, long bool) Case {
+	js, _ := json.Marshal(map[string]any{"evs": evs, "bb": bb, "long": long})
 	var last string
 	for attempt := 0; attempt < 2; attempt++ {
 		cmd := exec.Command(os.Args[0], "-scen", string(js))
@@ -809,6 +928,7 @@ func isolatedSeq(evs []Ev, gen string, bb int) Case {
 		var cs Case
 		if err == nil && json.Unmarshal(out, &cs) == nil && cs.Kind == "seq" {
 			cs.Gen = gen
+			cs.Long = long
 			if !cs.Slow {
 				return cs
 			}
@@ -820,7 +940,7 @@ func isolatedSeq(evs []Ev, gen string, bb int) Case {
 			last = last[:600]
 		}
 	}
-	return Case{Kind: "seq", Gen: gen, Evs: evs, Obs: []Obs{}, BB: bb, Stuck: true, Info: map[string]any{"stuck": last}}
+	return Case{Kind: "seq", Gen: gen, Evs: evs, Obs: []Obs{}, BB: bb, Long: long, Stuck: true, Info: map[string]any{"stuck": last}}
 }
 
 // isolatedStress runs one stress world in a child process: a deadlocked or
@@ -889,6 +1009,31 @@ func gallinaSeq(c Case) string {
 			b.WriteString("eAllow")
 		case "uapi":
 			fmt.Fprintf(&b, "eUapi %v", o.PkaOn)
+		case "tunerr", "tunierr":
+			if e.K == "tunerr" {
+				b.WriteString("eTunErr [")
+			} else {
+				b.WriteString("eTunIErr [")
+			}
+			for k := 0; k < e.N; k++ {
+				if k > 0 {
+					b.WriteString(";")
+				}
+				fmt.Fprintf(&b, "%d", o.First+uint64(k))
+			}
+			b.WriteString("]")
+			if e.K == "tunerr" {
+				fmt.Fprintf(&b, " %d [", e.Kf)
+				for k, id := range o.Lost {
+					if k > 0 {
+						b.WriteString(";")
+					}
+					fmt.Fprintf(&b, "%d", id)
+				}
+				b.WriteString("]")
+			}
+		case "retransmit":
+			b.WriteString("eRetransmit")
 		case "refinit":
 			fmt.Fprintf(&b, "eRefInit %d", o.Idx)
 		case "refdata":
@@ -996,14 +1141,15 @@ func main() {
 	flag.Parse()
 	if *scen != "" {
 		var in struct {
-			Evs []Ev `json:"evs"`
-			BB  int  `json:"bb"`
+			Evs  []Ev `json:"evs"`
+			BB   int  `json:"bb"`
+			Long bool `json:"long"`
 		}
 		if err := json.Unmarshal([]byte(*scen), &in); err != nil {
 			panic(err)
 		}
-		aev, obs, slow := runSeq(in.Evs, in.BB)
-		data, _ := json.Marshal(Case{Kind: "seq", Evs: aev, Obs: obs, Slow: slow, BB: in.BB})
+		aev, obs, slow := runSeq(in.Evs, in.BB, in.Long)
+		data, _ := json.Marshal(Case{Kind: "seq", Evs: aev, Obs: obs, Slow: slow, BB: in.BB, Long: in.Long})
 		os.Stdout.Write(data)
 		return
 	}
@@ -1025,7 +1171,7 @@ func main() {
 		if stuck >= 3 && *replayIn == "" {
 			return // three scenarios on which the device does not come to rest are evidence enough; each costs ~20 s
 		}
-		c := isolatedSeq(evs, gen, bb)
+		c := isolatedSeq(evs, gen, bb, false)
 		if c.Stuck {
 			stuck++
 		}
@@ -1045,7 +1191,11 @@ func main() {
 			if c.Kind == "conc" && c.Cfg != nil {
 				cases = append(cases, isolatedStress(*c.Cfg))
 			} else {
-				runOne(c.Evs, "replay", 4)
+				if c.Long {
+					cases = append(cases, isolatedSeq(c.Evs, "replay", 4, true))
+				} else {
+					runOne(c.Evs, "replay", 4)
+				}
 			}
 		}
 		*shards = 1
@@ -1069,6 +1219,21 @@ func main() {
 				}
 			}
 		}
+		longDone := make(chan []Case, 1)
+		go func() {
+			ls := longScenarios()
+			res := make([]Case, len(ls))
+			var wg sync.WaitGroup
+			for i, evs := range ls {
+				wg.Add(1)
+				go func() {
+					defer wg.Done()
+					res[i] = isolatedSeq(evs, "retransmit", 4, true)
+				}()
+			}
+			wg.Wait()
+			longDone <- res
+		}()
 		for i, evs := range directed() {
 			runOne(evs, "directed", 1+i%8)
 		}
@@ -1076,11 +1241,12 @@ func main() {
 			evs, kind := genSeq(r)
 			runOne(evs, kind, 1+r.Intn(16))
 		}
+		cases = append(cases, (<-longDone)...)
 		procs := []int{runtime.NumCPU(), 1, 4, 2, 8, 16, 3}
 		for i := 0; i < *worlds; i++ {
 			c := StressCfg{Seed: *seed*1000 + int64(i), Peers: 1 + i%3, BindBatch: []int{1, 8, 128, 32}[r.Intn(4)], TunBatch: []int{128, 16, 1, 64}[r.Intn(4)],
 				Procs: procs[i%len(procs)], Hogs: []int{0, 2, 6}[r.Intn(3)], OneIn: []int{0, 4, 16, 64}[r.Intn(4)], MaxSleep: []int{20, 100, 400}[r.Intn(3)],
-				DurMs: *durMs, Phases: 8, Expire: true, PaceUs: []int{150, 400, 1000}[r.Intn(3)], AnsDelay: []int{0, 5, 30, 30}[r.Intn(4)], KA: 1 + r.Intn(3), DownUp: i%2 == 1}
+				DurMs: *durMs, Phases: 8, Expire: true, PaceUs: []int{150, 400, 1000}[r.Intn(3)], AnsDelay: []int{0, 5, 30, 30}[r.Intn(4)], KA: 1 + r.Intn(3), DownUp: i%2 == 1, SendErr: []int{0, 300, 60}[i%3]}
 			if c.Procs > runtime.NumCPU() {
 				c.Procs = runtime.NumCPU()
 			}
